@@ -156,6 +156,40 @@ def run(case):
                     viol.append({"kind": "k_cover_invalid", "msg": f"{ctx3}: {errs[0]}", "routes": routes})
         if len(viol) > 6:
             break
+    # ---- covers under a constraint that only has to be covered partially: everything must STILL be covered ----
+    if ct == "edge" and not case["starts"] and not case["ends"]:
+        from .. import sweep
+        con = sweep.a_constraint(case)
+        opt0 = O.min_cover(g, list(E), stats)
+        if con and opt0:
+            variants = []
+            if fam == "dag":
+                lengths = {f"{a[0]}|{a[1]}": 1 + 2 * (i % 2) for i, a in enumerate(case["arcs"])}
+                variants.append(("coverage_length=0.5", dict(case, lengths=lengths), {"subpath_constraints": [con], "subpath_constraints_coverage_length": 0.5, "length_attr": "length"}))
+                variants.append(("coverage=0.5", case, {"subpath_constraints": [con], "subpath_constraints_coverage": 0.5}))
+                variants.append(("coverage=1", case, {"subpath_constraints": [con]}))
+            else:
+                variants.append(("coverage=0.5", case, {"subset_constraints": [con], "subset_constraints_coverage": 0.5}))
+                variants.append(("coverage=1", case, {"subset_constraints": [con]}))
+            for vname, c_in, ckw in variants:
+                for cls_, kw_ in ((Min, {}), (Kc, {"k": opt0 + 1})):
+                    o4 = drivers.observe(dict(c_in, cls=cls_, kw=dict(ckw, cover_type="edge", **kw_)))
+                    tags["constrained_cover"] += 1
+                    ctx4 = f"{cls_}({vname}, constraint={con}{', k=%d' % (opt0 + 1) if kw_ else ''})"
+                    if o4["exc"]:
+                        viol.append({"kind": "constrained_cover_exception", "msg": f"{ctx4} raised {o4['exc']} in {o4['phase']}"})
+                    elif o4["solved"]:
+                        routes = o4["sol"].get(rkey)
+                        errs = preds.route_errors(case, routes, fam == "cyc") + preds.cover_errors(case, routes, "edge", [])
+                        if errs:
+                            viol.append({"kind": "constrained_cover_invalid", "msg": f"{ctx4}: {errs[0]}", "routes": routes})
+                        elif len(routes) < opt0:
+                            viol.append({"kind": "constrained_cover_below_minimum", "msg": f"{ctx4}: {len(routes)} routes, fewer than the unconstrained minimum {opt0}", "routes": routes})
+                        else:
+                            nt.append(f"{key}|{vname}|{cls_}")
+                    elif cls_ == Min:
+                        # a constrained cover always exists in these worlds: every arc lies on a source-sink route, one route per arc plus one through the constraint
+                        tags["constrained_min_unsolved"] += 1
     # dedupe violations by kind (keep first two of each)
     seen = collections.Counter()
     out = []
